@@ -171,8 +171,17 @@ class Proof:
             return res
         res['instrument_log'] = (out + err)[-2000:]
         cmd = ['cbmc', '--object-bits', str(self.object_bits)] + self.solver + ([] if self.no_std_checks else CBMC_FLAGS) + self.flags
-        if self.unwind:
-            cmd += ['--unwind', str(self.unwind), '--no-unwinding-assertions' if getattr(self, 'no_unwinding_assertions', False) else '--unwinding-assertions']
+        if self.unwind and getattr(self, 'no_unwinding_assertions', False):
+            # bounded SEARCH: only the loops of the code under test are cut at the bound; the loops of the contract
+            # instrumentation library must stay fully unwound, otherwise every path is cut and the search is vacuous
+            rc2, out2, err2, _ = _run(['goto-instrument', '--show-loops', b], 300)
+            ids = [m.group(1) for m in re.finditer(r'^Loop (\S+):', out2 or '', re.M)]
+            ids = [i for i in ids if not i.startswith('__CPROVER')]
+            for i in ids:
+                cmd += ['--unwindset', '%s:%d' % (i, self.unwind)]
+            cmd += ['--no-unwinding-assertions']
+        elif self.unwind:
+            cmd += ['--unwind', str(self.unwind), '--unwinding-assertions']
         for u in self.unwindset:
             cmd += ['--unwindset', u]
         if self.unwindset and not self.unwind:
